@@ -353,7 +353,12 @@ def emit(crate, rows):
             o.append(stub_decl)
         o.append('//@ harness name=%s_keylen prop=C11 tier=%s bits=2416 %sdesc="%s::new_from_slice(&buf[..len]) is Ok exactly for the accepted key lengths and Err(InvalidLength) otherwise, without panicking; buf (300 bytes) and len (0..=300) symbolic%s"\n'
                  % (n, "quick" if (stub_pair or not t["heavy_ks"] or crate != "rc5") else "thorough", "stub=1 " if stub_pair else "", ty, "; key schedule stubbed out (verdict only)" if stub_pair else ""))
-        if crate in OVERRIDES_NFS:
+        if crate in ("idea", "kuznyechik"):
+            # the accepting path runs the whole key schedule (IDEA: 18 modular inversions; Kuznyechik: 32 table look-up
+            # rounds) and CBMC runs out of memory on it even with a constant key (measured 7-13 GB, no verdict); both types
+            # use the cipher crate's default new_from_slice, which is decided for the 30 other default-impl types
+            o.pop()
+        elif crate in OVERRIDES_NFS:
             o.append("g_keylen!(%s_keylen, %s, 300, %s%s);\n" % (n, ty, t["accepted"], (", stubs: [%s]" % stub_pair) if stub_pair else ""))
         else:
             o[-1] = o[-1].replace("tier=thorough", "tier=quick").replace("bits=2416", "bits=16").replace("buf (300 bytes) and len (0..=300) symbolic", "len (0..=300) symbolic, key content the zero string (default new_from_slice: the verdict depends on the length only)")
